@@ -22,7 +22,7 @@ ASSUMPTIONS = ["the scheduler serialises real threads; a race whose window lies 
                "oracle (5) (screen = printed lines in file order + last frame) is evaluated for Live displays whose "
                "frames carry unique tokens; see the known finding about the print-versus-refresh window",
                "a wall-clock watchdog (30 s per schedule) firing is inconclusive"]
-REQUIRED = ["mon.redirected_prints", "mon.log_call_site", "mon.nonterminal_final_frame", "mon.schedules", "mon.exactly_once_contiguous", "mon.capture_isolation", "mon.record_order",
+REQUIRED = ["mon.record_conservation_across_clearing_exports", "mon.redirected_prints", "mon.log_call_site", "mon.nonterminal_final_frame", "mon.schedules", "mon.exactly_once_contiguous", "mon.capture_isolation", "mon.record_order",
             "mon.deadlock_detector", "mon.screen_replay", "mon.context_switches"]
 MIN_NONTRIVIAL = {"quick": 800, "thorough": 50000}
 
@@ -138,6 +138,13 @@ def gen_program(rng, display):
     return prog
 
 
+def _html_text(html):
+    import html as _h
+    m = re.search(r"<pre[^>]*>(.*)</pre>", html, re.S)
+    body = m.group(1) if m else html
+    return _h.unescape(re.sub(r"<[^>]+>", "", body))
+
+
 def payload_lines(pid, n):
     lines = ["B:%s" % pid] + ["m:%s:%d" % (pid, k) for k in range(n - 1)] + ["E:%s" % pid]
     return lines
@@ -176,7 +183,16 @@ def wl_concurrent_logs(ctx, rng, case_no):
         strategy = S.RandomWalk(sseed, switch_prob=rng.choice([0.05, 0.2, 0.5]))
     else:
         strategy = S.PCT(sseed, depth=int(strat_kind[3]), est_steps=rng.choice([200, 600]))
-    execute(ctx, prog, "none", rng.random() < 0.5, 0, 12, strategy, strat_kind, sseed)
+    terminal = rng.random() < 0.5
+    # a third of these programs also take the record away while the others are still logging: export / save with
+    # clear=True from one or two of the threads (drawn from a stream of its own, so the other cases stay what they were)
+    import random as _random
+    r2 = _random.Random("exports/%d" % sseed)
+    if r2.random() < 0.35:
+        for _ in range(r2.choice([1, 1, 2])):
+            ops = prog[r2.randrange(nthreads)]
+            ops.insert(r2.randrange(len(ops) + 1), ["export", r2.choice(["text", "html", "save_text", "save_html"])])
+    execute(ctx, prog, "none", terminal, 0, 12, strategy, strat_kind, sseed)
 
 
 def wl_redirected_prints(ctx, rng, case_no):
@@ -290,6 +306,7 @@ def execute(ctx, prog, display, terminal, firings, height, strategy, strat_kind,
     saved_std = (_sys.stdout, _sys.stderr)
     cur_op = {}          # thread name -> kind of the operation it is executing
     captures = {}
+    exports = []         # what clearing exports returned, in the order they returned
     frames = {}          # frame id -> lines
     live = None
     if display.startswith("live"):
@@ -341,6 +358,28 @@ def execute(ctx, prog, display, terminal, firings, height, strategy, strat_kind,
                 with console.capture() as cap:
                     console.print(Text("\n".join(payload_lines(op[1], 2))))
                 captures[op[1]] = cap.get()
+        elif k == "export":
+            # the record is taken away (clear=True) while other threads may be printing: what is exported and what is
+            # left behind must add up to what was written
+            if op[1] == "text":
+                exports.append(console.export_text(clear=True))
+            elif op[1] == "html":
+                exports.append(_html_text(console.export_html(clear=True)))
+            else:
+                import os
+                import tempfile
+                d = tempfile.mkdtemp(prefix="rv-c11-")
+                try:
+                    path = os.path.join(d, "out")
+                    if op[1] == "save_text":
+                        console.save_text(path, clear=True)
+                        exports.append(open(path, encoding="utf-8").read())
+                    else:
+                        console.save_html(path, clear=True)
+                        exports.append(_html_text(open(path, encoding="utf-8").read()))
+                finally:
+                    import shutil
+                    shutil.rmtree(d, ignore_errors=True)
         elif k == "print_same":
             console.print(Text("S:same"))
         elif k == "capture_same":
@@ -500,11 +539,29 @@ def execute(ctx, prog, display, terminal, firings, height, strategy, strat_kind,
     exported = console.export_text(clear=False)
     file_marks = [m for m in _ANYMARK.findall(text)]
     rec_marks = [m for m in _ANYMARK.findall(exported)]
-    if file_marks != rec_marks:
+    if exports:
+        # conservation across clearing exports: every marker written to the file is in exactly one of the exports or in
+        # what is left in the record, and each export shows its markers in file order
+        ctx.count("mon.record_conservation_across_clearing_exports")
+        parts = [_ANYMARK.findall(e) for e in exports] + [rec_marks]
+        allm = [m for part in parts for m in part]
+        if sorted(allm) != sorted(file_marks):
+            lost = sorted(set(file_marks) - set(allm))
+            ctx.violation("record-%s-across-a-clearing-export:%s" % ("lost" if lost else "duplicated", display),
+                          dict(wit, file_order=file_marks[:24], exports=[p[:12] for p in parts], lost=lost[:8]))
+            return
+        pos = {m: i for i, m in enumerate(file_marks)}
+        for part in parts:
+            idx = [pos[m] for m in part]
+            if idx != sorted(idx):
+                ctx.violation("record-order-differs-from-file-order:%s" % display,
+                              dict(wit, file_order=file_marks[:20], record_order=part[:20]))
+                return
+    elif file_marks != rec_marks:
         ctx.violation("record-order-differs-from-file-order:%s" % display,
                       dict(wit, file_order=file_marks[:20], record_order=rec_marks[:20]))
         return
-    if live is None and exported != text:
+    if live is None and not exports and exported != text:
         ctx.violation("export_text-differs-from-file:%s" % display, dict(wit, exported=exported[:300], file=text[:300]))
         return
     # (5) screen replay for Live displays
